@@ -24,3 +24,13 @@ Print Assumptions C15_history_independence.
 Theorem C15_scanner_is_reinitialised : optind_reset = 0.
 Proof. exact C15_scanner_is_reinitialised_proof. Qed.
 Print Assumptions C15_scanner_is_reinitialised.
+
+(* the pipeline really leaves the static counter at 0: in every terminal state of the concurrent
+   transition system (every T, input, schedule, stream object) all buffers are INV, all workers
+   returned, the input is consumed and live = 0 -- the premise [p_live = 0] of run_pipeline *)
+From Wencry Require Import FileModel PipeConc PipeProps PipeProofs.
+Theorem C15_pipeline_leaves_counter_zero : forall (S : Type) tr tr_event c ispadding T sigma0 ls (s : PipeConc.state S),
+  (1 <= T)%nat -> length sigma0 = T -> wf_loads ls -> reachable S tr tr_event c ispadding T sigma0 ls s -> terminal S s = true ->
+  live S s = 0%nat /\ (forall i, (i < T)%nat -> b_st (getb S s i) = INV /\ getw S s i = W_Done) /\ input S s = [] /\ over S s = true.
+Proof. intros S tr tr_event c ispadding. exact (pipeline_end_state_proof S tr tr_event c ispadding). Qed.
+Print Assumptions C15_pipeline_leaves_counter_zero.
